@@ -130,6 +130,24 @@ def run(ctx, config='rel-all'):
             okv = asserted >= 2 or bool(sl)
         else:
             okv = asserted >= need and bool(sinks) and all(r.events.index(c) < r.events.index(sinks[0]) for c in checks)
+            # and each check is made at the index the bound denotes: start = Included(n) -> n, Excluded(n) -> n + 1;
+            # end = Included(n) -> n + 1, Excluded(n) -> n   (a check at a neighbouring index lets the splice cut a character)
+            seen_idx = set()
+            for c in checks:
+                ix = c.args[1] if len(c.args) > 1 else None
+                plus = 0
+                if ix is not None and ix[0] == 'app' and ix[1] == 'add' and len(ix) == 4 and is_c(ix[3]):
+                    plus, ix = ix[3][1], ix[2]
+                if ix is not None and ix[0] == 'load' and ix[1][0] == 'deref' and ix[1][1][:2] == ('app', 'vproj') and ix[1][1][2][0] == 'call':
+                    which = ix[1][1][2][1].split('::')[-1]
+                    seen_idx.add((which, ix[1][1][3], plus))
+                else:
+                    seen_idx.add(('?', show(c.args[1])[:40] if len(c.args) > 1 else '?', plus))
+            want_idx = {('start_bound', 'Included', 0), ('start_bound', 'Excluded', 1), ('end_bound', 'Included', 1), ('end_bound', 'Excluded', 0)}
+            if okv and seen_idx != want_idx and not any(w == '?' for w, _, _ in seen_idx):       # an unrecognised spelling of a bound is not judged
+                okv = False
+                ctx.violation('R1', 'String::' + name, 'range-check-index', 'String::%s asserts is_char_boundary at %s; the bounds denote %s' % (name, sorted(seen_idx - want_idx), sorted(want_idx - seen_idx)), b.get('span'))
+                continue
         if okv:
             ctx.ok('R1', 'String::%s: range bounds are boundary-checked before the bytes are touched' % name, '%d asserted is_char_boundary checks' % asserted)
         else:
@@ -660,6 +678,7 @@ def check_tables(ctx, db, config):
     I = arena.ArenaInterp(db)
     r = I.run_entry(b['id'])
     conts = set()
+    cont_terms = set()
     for e in r.events:
         if e.kind == 'branch' and e.is_own():
             d = e.val
@@ -668,18 +687,52 @@ def check_tables(ctx, db, config):
                 k = [t for t in (d[2], d[3]) if t == C(128)]
                 if x and k:
                     conts.add(e.top_block())
+                    cont_terms.add(x[0])
     if len(conts) == 4:
         ctx.ok('R3', 'lossy decoder: 4 continuation-byte checks (byte & 0xC0 == 0x80): 1 + 1 + 2 for widths 2, 3, 4', 'branch conditions in MIR')
     else:
         ctx.violation('R3', 'Utf8LossyChunksIter::next', 'continuation-checks', 'expected 4 continuation-byte checks (b & 192 == 128) in the decoder, found %d' % len(conts))
+    # polarity and bounds of the byte tests (a flipped test or an off-by-one bound keeps every count above intact):
+    # (i) the lead byte is ASCII exactly when byte < 128
+    leadc = [e for e in r.events if e.is_own() and e.kind == 'call' and e.callee and e.callee.endswith('::unsafe_get') and len(e.args) == 2]
+    if leadc:
+        LB = leadc[0].ret
+        tests = set()
+        for e in r.events:
+            if e.kind == 'branch' and e.is_own() and e.val is not None and e.val[0] == 'cmp' and e.val[1] in ('lt', 'le'):
+                a_, b_ = e.val[2], e.val[3]
+                if a_ == LB and is_c(b_) and b_[1] in (127, 128, 129):
+                    tests.add((e.val[1], b_[1]))
+                if b_ == LB and is_c(a_) and a_[1] in (127, 128, 129):
+                    tests.add(('rev-' + e.val[1], a_[1]))
+        if tests and tests <= {('lt', 128), ('le', 127), ('rev-le', 128), ('rev-lt', 127)}:
+            ctx.ok('R3', 'lossy decoder: a lead byte is taken as ASCII exactly when it is < 128', 'branch condition on the lead byte')
+        else:
+            ctx.violation('R3', 'Utf8LossyChunksIter::next', 'ascii-test', 'the ASCII fast path of the decoder is not `byte < 128` (found %s): byte 0x80 would be accepted as text, or 0x7F rejected' % sorted(tests))
+    # (ii) safe_get reads source[i] only for i < len (and yields a non-continuation filler otherwise)
+    sg = [x for x in db.fn_bodies() if x['id'].endswith('::next::safe_get')]
+    if sg:
+        I2 = arena.ArenaInterp(db)
+        r2 = I2.run_entry(sg[0]['id'])
+        altsg = arena.alternatives(I2, r2.ret, set()) if r2.ret is not None else []
+        reads = [(t, fs) for t, fs in altsg if not is_c(t)]
+        fills = [t for t, fs in altsg if is_c(t)]
+        okb = len(reads) == 1 and ('lt', ('param', 2), app('len', ('param', 1))) in reads[0][1] and all((t[1] & 192) != 128 for t in fills) and len(fills) == 1
+        if okb:
+            ctx.ok('R3', 'lossy decoder: safe_get(xs, i) reads xs[i] only under i < xs.len() and otherwise yields a byte that is not a continuation byte', 'alternatives of the helper')
+        else:
+            ctx.violation('R3', 'Utf8LossyChunksIter::next::safe_get', 'probe-bound', 'safe_get must read the slice only under i < len (unchecked read!) and yield a non-continuation filler past the end; found %s' % [(show(t)[:30], [f for f in fs if f[0] in ('lt', 'le')][:2]) for t, fs in altsg][:3], sg[0].get('span'))
     # cursor discipline (std): a chunk that ends in an error is source[i_..E] where E is the index of the byte whose check
     # failed -- the offending byte is NOT consumed and is examined again as the start of the next sequence
     g = db.cfg(b)
     own = [e for e in r.events if e.is_own()]
     probes = {}      # block -> index term of the safe_get it calls
+    probe_val = {}   # block -> the byte it returned
     for e in own:
         if e.kind == 'call' and e.callee and e.callee.endswith('::safe_get') and len(e.args) == 2:
             probes[e.top_block()] = e.args[1]
+            if e.ret is not None:
+                probe_val[e.top_block()] = e.ret
     lead = [e for e in own if e.kind == 'call' and e.callee and e.callee.endswith('::unsafe_get') and len(e.args) == 2]
     exits = []
     for e in own:
@@ -709,6 +762,17 @@ def check_tables(ctx, db, config):
             # nearest dominating probe = the one dominated by all the others
             near = [pb for pb in doms if all(g.block_dominates(q, pb) for q in doms)]
             expect = probes[near[0]] if near else app('add', i0, C(1))
+            # (iii) an exit right after a continuation-byte probe is taken when that byte is NOT a continuation byte
+            if near and near[0] in probe_val:
+                V = probe_val[near[0]]
+                andt = [t for t in cont_terms if V in subterms(t)]
+                if andt:
+                    if en_whole is not en0 and en_whole[0] == 'phi':
+                        fx = set(I.phi_facts.get(en_whole[1][:2], {}).get(at_block, ()))
+                    else:
+                        fx = set(e.state.facts)
+                    if not any(f[0] == 'ne' and len(f) == 3 and C(128) in f[1:] and any(a in f[1:] for a in andt) for f in fx):
+                        bad.append((e, 'an error exit after a continuation-byte probe must be taken on `byte & 0xC0 != 0x80`'))
             if st0 != i0:
                 bad.append((e, 'the broken part must start at the first byte of the sequence'))
             elif lin(en0) != lin(expect):
